@@ -27,14 +27,23 @@ def run(tier, seed, replay):
         cases = [{"files": case["files"], "data": case["data"], "tree": case["tree"], "steps": case.get("steps") or [],
                   "family": "UB", "inel": case.get("inel", [])}]
     else:
-        cfg = "MCInstance_UB" if tier == "quick" else "MCInstanceDeep2_UB"
-        res = vlib.tlc("MCInstance", cfg=cfg, workers=8, timeout=3000,
-                       sample=(10, seed) if tier == "quick" else (25, seed))
+        res = vlib.tlc("MCInstance", cfg="MCInstance_UB", workers=8, timeout=3000, sample=(10, seed) if tier == "quick" else None)
         vlib.tlc_expect_ok(res, "MCInstance UB")
         ck.add_tlc(res)
-        ck.notes.append("%d of %d behaviours replayed (seeded sample of TLC's exhaustive enumeration)" % (len(res.cases), res.ncases))
+        ck.notes.append("%d of %d behaviours of length 1 replayed%s" % (len(res.cases), res.ncases,
+                        " (seeded sample of TLC's exhaustive enumeration)" if tier == "quick" else ""))
+        all_cases = list(res.cases)
+        if tier != "quick":
+            # two binding-map updates in a row: random walks (the exhaustive space has > 3 * 10^6 behaviours); in simulation mode
+            # TLC evaluates IEmit on every successor it generates, so one walk prints every second step of its first
+            res2 = vlib.tlc("MCInstance", cfg="MCInstanceDeep2_UB", workers=4, timeout=3000, simulate=1500, depth=3, seed=seed, sample=(12, seed))
+            if res2.rc != 0 or res2.violated:
+                vlib.tlc_expect_ok(res2, "MCInstance UB, two updates")
+            ck.add_tlc(res2)
+            ck.notes.append("%d behaviours of length 2 from %d printed by 1500 random walks" % (len(res2.cases), res2.ncases))
+            all_cases += res2.cases
         cases = []
-        for c in res.cases:
+        for c in all_cases:
             k = c06.to_case(c, "UB")
             k["inel"] = c.get("inel", [])
             cases.append(k)
